@@ -22,4 +22,6 @@ EXTRAS = [
     lambda rep, fb, tier: __import__("vf.rules.canon", fromlist=["x"]).rule_canon(rep, fb),
     lambda rep, fb, tier: forward.rule_same_name(rep, fb, select=lambda f: "getitem" in f["name"] or f["name"] in ("carry", "asslice"), floor=300, name="FORWARD.same-name:getitem"),
     lambda rep, fb, tier: __import__("vf.rules.methodrules", fromlist=["x"]).rule_index_content(rep, fb),
+    lambda rep, fb, tier: __import__("vf.rules.lints", fromlist=["x"]).rule_ptr_byteoffset(rep, fb),
+    lambda rep, fb, tier: __import__("vf.rules.lints", fromlist=["x"]).rule_shape_subscript(rep, fb),
 ]
